@@ -180,7 +180,70 @@ def run_big_lookup(case, acc, order):
                                             expected='groups by id', observed='mismatch'), order)
 
 
+def run_extreme(case, acc, order):
+    """Short lookups / assignment vectors whose values sit at the top of their dtype's range, held
+    in that dtype (every permutation of the lookup), and groups that overlap (flatten = sorted union)."""
+    from phylib.io.array import _index_of, _unique, _spikes_per_cluster, _spikes_in_clusters, \
+        _flatten_per_cluster
+    dt = case['dtype']
+    top = int(np.iinfo(dt).max) if dt != 'int64' else 2 ** 20
+    top = min(top, 2 ** 20)                 # the lookup table has max+1 entries: keep it small
+    vals = [top, 3, top - 1, 0]
+    acc.state()
+
+    def report(sub, kind, op, exp, got):
+        sig = '%s/%s/%s/extreme-values/%s' % (PROP, sub, 'unsigned' if dt.startswith('u') else 'signed', kind)
+        acc.violation(sig, core.make_record(PROP, sub, sig, case=case, op=op, expected=exp,
+                                            observed=describe(got) if isinstance(got, BaseException)
+                                            else got), order)
+    for perm in itertools.permutations(vals):
+        lookup = np.array(perm, dtype=dt)
+        for arr_l in ([top], [0, top], [top - 1, top, top, 3], list(perm)[::-1]):
+            for adt in (dt, 'int64'):
+                arr = np.array(arr_l, dtype=adt)
+                exp = [list(perm).index(x) for x in arr_l]
+                try:
+                    got = as_list(_index_of(arr, lookup))
+                except Exception as e:
+                    got = e
+                acc.step(True, 'index_of:extreme')
+                if got != exp:
+                    report('index_of', type(got).__name__ if isinstance(got, BaseException) else 'value',
+                           {'lookup': list(perm), 'arr': arr_l, 'arr_dtype': adt}, exp, got)
+        v = np.array(list(perm) + [top], dtype=dt)
+        try:
+            u = as_list(_unique(v))
+            spc = {int(k): as_list(x) for k, x in _spikes_per_cluster(v).items()}
+            sel = as_list(_spikes_in_clusters(v, [top, 3]))
+        except Exception as e:
+            u = spc = sel = e
+        acc.step(True, 'groups:extreme')
+        exp_spc = {}
+        for i, x in enumerate(v.tolist()):
+            exp_spc.setdefault(int(x), []).append(i)
+        exp_sel = sorted(exp_spc[top] + exp_spc[3])
+        if u != sorted(set(vals)) or spc != exp_spc or sel != exp_sel:
+            report('spikes_per_cluster', type(u).__name__ if isinstance(u, BaseException) else 'value',
+                   {'vector': v.tolist()}, {'unique': sorted(set(vals)), 'groups': exp_spc},
+                   u if isinstance(u, BaseException) else {'unique': u, 'groups': spc, 'selected': sel})
+    # groups that are not disjoint: the flattened result is the sorted union, every id once
+    for groups in ({0: [0, 2, 5], 1: [2, 3]}, {4: [1, 1, 7], 2: [7, 9]}, {0: [3], 1: [3], 2: [3, 4]},
+                   {5: [], 6: [2, 0]}):
+        g = {k: np.array(x, dtype=np.int64) for k, x in groups.items()}
+        exp = sorted(set(i for x in groups.values() for i in x))
+        try:
+            got = as_list(_flatten_per_cluster(g))
+        except Exception as e:
+            got = e
+        acc.step(True, 'flatten:overlap')
+        if got != exp:
+            report('flatten_per_cluster', type(got).__name__ if isinstance(got, BaseException)
+                   else 'overlapping-groups', {'groups': groups}, exp, got)
+
+
 def run_case(case, acc, order):
+    if case.get('extreme'):
+        return run_extreme(case, acc, order)
     if 'm' in case:
         return run_big_lookup(case, acc, order)
     v = case['v']
@@ -227,6 +290,8 @@ def explore(ctx):
              for mult in (1, 7, 11, 13) if np.gcd(mult, m) == 1
              for dt in (['int32', 'int64', 'uint32'] + (['uint16'] if m < 65536 else []))]
     ctx.run_cases(run_case, cases, chunk=1, sweep='many-ids')
+    cases = [{'extreme': True, 'dtype': dt} for dt in ('uint8', 'uint16', 'int16', 'int32', 'uint32', 'int64')]
+    ctx.run_cases(run_case, cases, chunk=1, sweep='extreme-values')
     try:
         from . import c07_model
     except ImportError:
